@@ -63,6 +63,52 @@ CHECKS = {
    "Health histories F^k P, P(F^(t-1)P)^m F^t for t in 1..3 and two failure kinds; shutdown scenarios signal x grace period x phase of the in-flight request x backend finishing inside/outside the period. Judged: no proxy request before the first passing reply was sent, no exit with fewer than t trailing failures, exit within 10 s of the t-th, in-flight request answered in full when the backend finishes inside the period, no list call after the announced shutdown once the held one returned, exit not before the period ended.",
    "Progress bound T=10 s; phases before the request reached the backend are outside the statement.",
    "DESIGN.md §3 C20"),
+
+ "C10": ("E2", "exploration",
+   "runtime monitoring: reference-model monitor (one net/http/cookiejar per issued session) over sequential histories; concurrent phase with tag-safety oracle, porcupine linearizability check per (session, cookie name), quiescent model comparison, hook-forced first-use overlaps + race detector",
+   "sessions.SessionHandler is driven in a race-built worker with http.ReadRequest-built requests against a scripted backend; the model jar decides exactly which cookies the backend must see, client-visible Set-Cookie must be only the agent's session cookie with the stated attributes; concurrent rounds record call/return windows from one clock and are checked with porcupine v1.3.0 (60 s timeout => inconclusive); eviction histories assert only the limit-1 most recently used sessions.",
+   "Jar semantics are net/http/cookiejar's for https://<Host><path>; empty-valued session cookies are not generated; time margins >= 60 s.",
+   "DESIGN.md §3 C10"),
+ "C11": ("E2", "exploration",
+   "runtime monitoring: exactly-once / in-order checker over recorded message sequences at both ends of the shim (unique payloads), batching varied; JSON-equality oracle for header injection",
+   "websockets.Proxy + a real gorilla websocket backend in a race-built worker; generated text/binary sequences partitioned into data posts and polls; the sequence the backend received and the concatenation of decoded poll replies must equal what was sent; with injection only resource.headers may gain absent keys.",
+   "One data post and one poll outstanding per session, as the injected browser shim does; JSON numbers kept float64-exact.",
+   "DESIGN.md §3 C11"),
+ "C12": ("E2", "exploration",
+   "runtime monitoring: bounded-exhaustive call histories against a session model + hook-forced interleavings (barriers at verifhook points, both orders) + stress, with panic/crash monitor, answer-within-bound monitor and race detector",
+   "All call sequences up to length 4 (sampled to 7 in thorough) over open/data/poll/close x valid/unknown/closed/malformed plus backend-send/backend-close; concurrent pairs on one session forced into both orders at the hook points; every call must be answered with 200/400/408/500 within its bound, unknown/closed sessions never get 200, close reaches the backend, backend-initiated close delivers queued messages then 400; no panic, no attributed race.",
+   "Bounds: poll 30 s, others 10 s, misses confirmed by solo re-run; only the interleavings produced/forced are decided.",
+   "DESIGN.md §3 C12"),
+ "C13": ("E2", "exploration",
+   "runtime monitoring: dial observer (websocket.DefaultDialer.NetDialContext seam records every address dialled) + backend-side URI observer over an enumerated/mutated URL corpus; differential check for non-shim paths",
+   "Open bodies from enumerated URL syntax classes expanded by seeded mutation; every dialled address must be the configured backend and the URI the backend saw must be the input's escaped path and raw query; requests outside the shim prefix (incl. near misses) must reach the wrapped handler unchanged.",
+   "The strace sample of the agent binary was not built; paths Go's ServeMux redirects itself are not generated.",
+   "DESIGN.md §3 C13"),
+ "C15": ("E1+E2", "exploration",
+   "runtime monitoring: prefix/SHA-256 stream verifier on tagged PRNG streams through the real bridge binaries (both directions, 1-48 concurrent connections, write/read segmentation product) + in-process websocket-peer cases + request fidelity oracle for passthrough + race detector",
+   "Every read at the far end is compared with the regenerated stream (first differing offset reported), final length and hash compared; E2 cases cover partial consumption of messages, frames interleaved with non-text frames, >32 KiB writes; passthrough requests compared with the C02 oracle.",
+   "X-Forwarded-For may gain the proxy's client IP on passthrough; h2c towards the backend not exercised.",
+   "DESIGN.md §3 C15"),
+ "C16": ("E1", "exploration",
+   "runtime monitoring: bounded-progress monitor for EOF propagation (T=10 s, solo-confirmed) + socket census of the bridge processes (/proc/<pid>/fd) at quiescence",
+   "Close scenarios {client first, server first} x {idle, data in flight either/both directions} x sizes and connection churn; the far peer must read EOF after all data sent before the close, and both processes' socket counts must return to baseline once both peers are gone.",
+   "Unbounded 'eventually' replaced by T=10 s; completeness of pre-close data judged only where the closer had nothing unread (TCP reset semantics).",
+   "DESIGN.md §3 C16"),
+ "C17": ("E3", "exploration",
+   "runtime monitoring: the production appengine HTTP entry point driven in-package against a fake App Engine API with an operation log; independent access-control specification over enumerated (identity, endpoint, backend, request) combinations",
+   "go test -c -overlay adds a driver to /repo/app without touching it; unauthorised agent calls must get 401 with zero mutating API calls and no planted secret in the body; authorised calls may touch only their backend's entities; non-admins get 403 and mutate nothing; routed end users only reach their own or allUsers backends.",
+   "The fake datastore/memcache/user API implements the documented contract (strongly consistent, transactions not isolated); /cron/delete is not judged (restricted by app.yaml).",
+   "DESIGN.md §3 C17"),
+ "C18": ("E3", "exploration",
+   "runtime monitoring: bounded-exhaustive comparison of the real caching+persistent store's LookupBackend (and a sample through the client handler) with an independent longest-prefix specification, under every insertion order",
+   "All one- and two-backend configurations plus random sets of 2-4 backends with prefix lists, users, paths and last-seen ages; result must be a live member of the longest-prefix class (user's backends first, shared only when the user has no match) or 404 as the statement allows; identical on repetition and under every insertion order.",
+   "Ties and a non-live member of the longest-prefix class admit 404 or any live member; liveness ages kept >= 60 s from the 5-minute boundary.",
+   "DESIGN.md §3 C18"),
+ "C19": ("E3", "fault_enumeration",
+   "runtime monitoring: token-tagged end-to-end exchanges through the production handlers on a fake App Engine API + blob round trips at the 1 MB boundaries + enumerated single/pair store faults with a bounded-return (T=45 s, solo-confirmed) monitor + race detector",
+   "Concurrent clients and pollers with the 8x8 product of boundary payload sizes; fetched bytes must parse to the client's request, the client must get exactly the response posted under its ID or 504, completed IDs leave the pending list; every (service, method, kind) call at every endpoint is failed in turn (and every pair for the response post) and every handler call must return.",
+   "Fake API is strongly consistent; eventual-consistency effects are out of reach.",
+   "DESIGN.md §3 C19"),
 }
 
 PENDING = {}
